@@ -1,5 +1,6 @@
 """C14 - no operation modifies the signal or arguments it is given
 (spec/Alias.tla; behaviours replayed on the real code, buffer hashes validated by Trace_Alias)."""
+import copy
 import hashlib
 import os
 import random
@@ -360,6 +361,67 @@ def extreme_arg_events(rnd, eid0):
                 events.append({"id": eid0 + len(events), "ev": "call", "op": "api_call", "argbuf": zb, "pre": pre,
                                "post": P.hashes(), "mpre": mpre, "mpost": P.metas(), "raised": raised,
                                "case": {"phase-conversion": cname, "imag": im, "rep": rep}})
+    # Phase arithmetic with array / Quantity second operands: both operands are registered arguments
+    def phases():
+        return {"real": pb.Phase(np.array([3.0, -7.0, 1e9]), np.array([0.25, -0.125, 0.4])),
+                "imag": pb.Phase(np.array([3.0, -7.0, 1e9]), np.array([0.25, -0.125, 0.4])) * 1j}
+    others = {"c16-imag": lambda: np.array([2j, -1j, 0.5j]), "c16": lambda: np.array([1 + 2j, 2.0, -1j]),
+              "f8": lambda: np.array([2.0, -3.0, 0.5]), "i8": lambda: np.array([2, -3, 4]),
+              "dimless": lambda: np.array([2.0, -3.0, 0.5]) * u.one, "dimless-imag": lambda: np.array([2j, -1j, 0.5j]) * u.one,
+              "cycle": lambda: np.array([2.0, -3.0, 0.5]) * u.cycle, "percent": lambda: np.array([200.0, -300.0, 50.0]) * u.percent,
+              "phase": lambda: pb.Phase(np.array([1.0, 2.0, 3.0]), np.array([0.1, 0.2, 0.3]))}
+    binops = [("mul", lambda a, b: a * b), ("rmul", lambda a, b: b * a), ("div", lambda a, b: a / b),
+              ("add", lambda a, b: a + b), ("sub", lambda a, b: a - b), ("rsub", lambda a, b: b - a),
+              ("mod", lambda a, b: a % b), ("floordiv", lambda a, b: a // b), ("lt", lambda a, b: a < b),
+              ("eq", lambda a, b: a == b), ("np.multiply", lambda a, b: np.multiply(a, b)),
+              ("np.divide", lambda a, b: np.divide(a, b))]
+    for pk in ("real", "imag"):
+        for ok, mk in others.items():
+            for bname, f in binops:
+                p, o = phases()[pk], mk()
+                P = Pool()
+                zb = P.buf_id(z.data)
+                P.sigs.append((z, zb))
+                P.buf_id(p)
+                P.buf_id(o)
+                for rep in (0, 1):
+                    pre, mpre = P.hashes(), P.metas()
+                    try:
+                        f(p, o)
+                        raised = ""
+                    except Exception as e:  # noqa
+                        raised = repr(e)[:200]
+                    events.append({"id": eid0 + len(events), "ev": "call", "op": "api_call", "argbuf": zb, "pre": pre,
+                                   "post": P.hashes(), "mpre": mpre, "mpost": P.metas(), "raised": raised,
+                                   "case": {"phase-conversion": "%s:%s:%s" % (pk, bname, ok), "imag": pk == "imag", "rep": rep}})
+    # concatenate of DIFFERENT signals (not pieces of one): their metadata dicts differ in keys and values
+    for kind in ("dp", "bb", "in", "sg"):
+        z0 = make_root({"kind": kind, "contig": True}, rnd)
+        for axis in (0, "time", 1, "freq"):
+            if axis in (1, "freq"):
+                if kind == "sg":
+                    continue
+                a, b = z0[:, :1], z0[:, 1:]
+            else:
+                a, b = z0[:20], z0[20:]
+            metas = [({"first": 1, "shared": [1, 2]}, {"second": {"k": "v"}, "shared": [3]}), (None, {"only-later": 1}),
+                     ({}, {"x": 1}), ({"a": 1}, None), ({"a": {"n": [1]}}, {"a": {"n": [2], "m": 3}, "b": 2})]
+            for m1, m2 in metas:
+                a2, b2 = type(a).like(a, meta=copy.deepcopy(m1)), type(b).like(b, meta=copy.deepcopy(m2))
+                P = Pool()
+                zb = P.buf_id(a2.data)
+                P.sigs.append((a2, zb))
+                P.sigs.append((b2, P.buf_id(b2.data)))
+                for rep in (0, 1):
+                    pre, mpre = P.hashes(), P.metas()
+                    try:
+                        pb.concatenate([a2, b2], axis=axis)
+                        raised = ""
+                    except Exception as e:  # noqa
+                        raised = repr(e)[:200]
+                    events.append({"id": eid0 + len(events), "ev": "call", "op": "concat_self", "argbuf": zb, "pre": pre,
+                                   "post": P.hashes(), "mpre": mpre, "mpost": P.metas(), "raised": raised,
+                                   "case": {"extreme": "concat-metas", "rep": rep, "args": [kind, str(axis), repr(m1), repr(m2)]}})
     return events
 
 
